@@ -10,7 +10,7 @@ REPO = os.environ.get("VERIF_REPO", "/repo")
 DRIVER = os.path.join(LEAN, ".lake", "build", "bin", "driver")
 WORK = os.path.join(ROOT, "work")
 REPLAYS = os.path.join(ROOT, "replays")
-EVID = os.path.join(ROOT, "evidence")
+EVID = os.environ.get("VERIF_EVID", os.path.join(ROOT, "evidence"))
 ALLOWED_AXIOMS = {"propext", "Classical.choice", "Quot.sound"}
 FORBIDDEN = re.compile(r"\b(sorry|admit|native_decide|bv_decide|implemented_by|unsafe)\b|^\s*axiom\s|maxHeartbeats\s+0\b", re.M)
 
@@ -107,19 +107,25 @@ PROPS = {
                 rule="histories with arbitrary timestamp order (jitter, multi-second steps back, oscillation) on stores with aggressive cleanup; no error/panic; window bound with measured J; budget probes at an earlier timestamp vs the latest one by re-execution"),
     "C18": dict(runs=[("core", "rate", dict(quick=600000, thorough=20000000))], proj=proj_full, tags=["C18"],
                 rule="(count, period) boundary lattice, divisors and near-divisors of period*1e9, random points in and outside D; unit constructors at boundaries and random n in 1..2^32-1; non-trivial = point inside D"),
-    "C09": dict(runs=[("server", "actor", dict(quick=300, thorough=6000)), ("server", "wire", dict(quick=40, thorough=600))], proj=proj_full, tags=["C09"],
+    "C09": dict(runs=[("server", "actor", dict(quick=300, thorough=6000)), ("server", "wire", dict(quick=40, thorough=600)), ("server", "binary", dict(quick=60, thorough=120))], proj=proj_full, tags=["C09"],
                 rule="actor: the real actor loop (unspawned, hook) and real RateLimiterHandle::throttle futures polled by a hand-rolled deterministic scheduler - exhaustive enumeration of schedules for small configurations, random schedules for larger; every trace replayed through the Lean LTS validator with the GCRA model as limiter; wire: one in-process server with HTTP + gRPC + RESP on loopback sockets sharing one actor, traces validated (loose enq order)"),
     "C10": dict(modules=["C10", "C10Resp"], runs=[("server", "actor", dict(quick=300, thorough=6000)), ("server", "conn", dict(quick=60, thorough=1500))], proj=proj_full, tags=["C10"],
                 rule="actor: schedules with queue capacity down to 1 and cancellation of pending requests at every poll boundary (before enqueue / after enqueue / after the reply was produced); conn: pipelined RESP streams over real TCP cut into random chunkings, PING tags identify reply order"),
-    "C11": dict(runs=[("server", "actor", dict(quick=200, thorough=4000)), ("server", "wire", dict(quick=40, thorough=600))], proj=proj_full, tags=["C11"],
+    "C11": dict(runs=[("server", "actor", dict(quick=200, thorough=4000)), ("server", "wire", dict(quick=40, thorough=600)), ("server", "conn", dict(quick=60, thorough=1500)), ("server", "binary", dict(quick=60, thorough=120))], proj=proj_full, tags=["C11"],
+                # a connection that stops answering well-formed commands after fragmented / malformed traffic is a C11 failure too
+                tags_by_mode={"conn": ["C10", "C13"], "resp": ["C13"]},
                 rule="hostile prefixes (i64 boundary lattice as requests on every transport, malformed frames, abrupt closes, oversize buffers) followed by a probe request on a new connection whose answer is compared with the model"),
-    "C12": dict(runs=[("server", "cmd", dict(quick=400, thorough=10000)), ("server", "wire", dict(quick=40, thorough=600))], proj=proj_full, tags=["C12"],
+    "C12": dict(runs=[("server", "cmd", dict(quick=400, thorough=10000)), ("server", "wire", dict(quick=40, thorough=600)), ("server", "binary", dict(quick=60, thorough=120)), ("server", "actor", dict(quick=100, thorough=2000))], proj=proj_full, tags=["C12"],
+                # the actor traces carry the wire-level response (seconds); replaying the proc log on a fresh library limiter checks the conversion
+                tags_by_mode={"actor": ["C09"]},
                 rule="cmd: RESP commands (bulk vs :int arguments, any name case, arity 4..7, non-numeric / overflow arguments) through the real per-command handler with a real actor, the request the actor saw and the reply compared with the model's plan/finish; wire: each logical request routed to a random protocol/encoding over loopback sockets, wire answer compared field by field with what the actor log says the library decided"),
     "C13": dict(runs=[("server", "resp", dict(quick=900, thorough=200000)), ("server", "conn", dict(quick=60, thorough=1500))], proj=proj_full, tags=["C13"],
                 rule="resp: ALL byte strings up to length 5 (thorough 6) over the 13-symbol protocol alphabet + grammar-generated frames with mutations and hostile headers through the real RespParser vs the model; prefix-stability / bounds / depth-restored asserted on the real parser; conn: real TCP, same stream under several chunkings incl. 1-byte chunks"),
-    "C14": dict(runs=[("server", "resp", dict(quick=900, thorough=200000)), ("server", "cmd", dict(quick=400, thorough=10000))], proj=proj_full, tags=["C14"],
+    "C14": dict(runs=[("server", "resp", dict(quick=900, thorough=200000)), ("server", "cmd", dict(quick=400, thorough=10000)), ("server", "conn", dict(quick=60, thorough=1500))], proj=proj_full, tags=["C14"],
+                # the reply stream of a real connection must stay in step with the command stream
+                tags_by_mode={"conn": ["C10", "C13"], "resp": ["C13"]},
                 rule="resp: recursively generated values (all five kinds, CR/LF inside bulk strings, i64 extremes, depth up to 128) through the real serializer and parser; cmd: every reply of the real command handler serialised and parsed back as exactly one frame (command names with CR/LF, quotes, non-ASCII)"),
-    "C15": dict(runs=[("server", "metrics", dict(quick=300, thorough=6000)), ("server", "cmd", dict(quick=400, thorough=10000)), ("server", "wire", dict(quick=40, thorough=600))], proj=proj_full, tags=["C15"],
+    "C15": dict(runs=[("server", "metrics", dict(quick=300, thorough=6000)), ("server", "cmd", dict(quick=400, thorough=10000)), ("server", "wire", dict(quick=40, thorough=600)), ("server", "binary", dict(quick=60, thorough=120))], proj=proj_full, tags=["C15"],
                 rule="metrics: random event lists vs the model's counters; 8 OS threads hammering one Metrics, identities at barriers; cmd/wire: which counter each real command moved, /metrics scraped and parsed at quiescent points and compared with what clients saw"),
     "C16": dict(runs=[("server", "metrics", dict(quick=300, thorough=6000))], proj=proj_full, tags=["C16"],
                 rule="adversarial denial streams (unbounded distinct keys, late heavy hitters, ties, 255/256/257-byte keys, quotes/backslashes/controls/non-ASCII) on sizes 1..100 (+0, 20000 for the clamp); the table before/after EVERY update and every report checked by the model's relational validators (any tie-breaking accepted); escaped labels compared byte for byte; export parsed back line by line"),
@@ -277,6 +283,7 @@ def leg_p(pid, tier):
 # ------------------------------------------------------------------------------------------------
 
 TRANSLATOR_BROKEN = None
+NEED_BINARY = False
 
 def alt_harness():
     """private copy of the harness whose path dependencies point at VERIF_REPO"""
@@ -312,8 +319,13 @@ def build_all(profiles=("release",)):
         if rc != 0:
             return False, "lake build driver failed:\n" + "\n".join(l for l in out.splitlines() if "error" in l)[:3000]
     with Lock("cargo"):
-        if not os.path.exists(os.path.join(HARNESS, "Cargo.lock")):
-            pass
+        if NEED_BINARY:
+            tdir = os.path.join(WORK, "repo-target" + ("" if REPO == "/repo" else "-" + hashlib.sha1(REPO.encode()).hexdigest()[:8]))
+            rc, out = sh(["cargo", "build", "--offline", "--release", "-q", "-p", "throttlecrab-server", "--bin", "throttlecrab-server",
+                          "--manifest-path", os.path.join(REPO, "Cargo.toml"), "--target-dir", tdir], timeout=3000)
+            if rc != 0:
+                return False, "cargo build of the server binary from the working tree failed:\n" + out[-3000:]
+            ENV["TCV_SERVER_BIN"] = os.path.join(tdir, "release", "throttlecrab-server")
         for prof in profiles:
             cmd = ["cargo", "build", "--offline", "-q"] + (["--release"] if prof == "release" else [])
             rc, out = sh(cmd, cwd=HARNESS, timeout=3000)
@@ -438,6 +450,8 @@ def run_core(pid, tier, seed):
     profiles = spec.get("profiles", ["release"])
     wdir = os.path.join(WORK, f"{pid}-{tier}")
     log(f"[{pid}] tier={tier} seed={seed}")
+    global NEED_BINARY
+    NEED_BINARY = any(mode == "binary" for (_, mode, _) in spec["runs"])
     ok, detail = build_all(profiles)
     violations = []   # (replay_path, suffix)
     known_lines = []
@@ -472,11 +486,13 @@ def run_core(pid, tier, seed):
             r = run_mode(pid, crate, mode, ns[tier], seed, prof, os.path.join(wdir, prof), spec["proj"])
             runs.append(r)
             log(f"[{pid}] M/O {mode}[{prof}] n={ns[tier]}: {r['lines']} lines, {r['compared']} compared, {r.get('n_mismatches', 0)} model mismatches, "
-                f"{sum(1 for v in r['viols'] if v['tag'] in spec['tags'])} impl violations ({r['wall_harness']}s + {r.get('wall_driver', 0)}s)")
+                f"{sum(1 for v in r['viols'] if v['tag'] in spec['tags'] + spec.get('tags_by_mode', {}).get(r['mode'], []))} impl violations ({r['wall_harness']}s + {r.get('wall_driver', 0)}s)")
             if r["harness_rc"] != 0:
                 log(r.get("harness_error", ""))
     m_broken = any(r.get("n_mismatches", 0) > 0 or r["harness_rc"] != 0 or "driver_error" in r for r in runs)
-    o_viols = [v for r in runs for v in r["viols"] if v["tag"] in spec["tags"]]
+    def tags_for(r):
+        return spec["tags"] + spec.get("tags_by_mode", {}).get(r["mode"], [])
+    o_viols = [v for r in runs for v in r["viols"] if v["tag"] in tags_for(r)]
     known = [v for r in runs for v in r["viols"] if v["tag"].startswith("KNOWN-")]
     # ---- intensify O when P or M is broken and no concrete input yet
     if (not p["ok"] or m_broken) and not o_viols:
@@ -485,7 +501,7 @@ def run_core(pid, tier, seed):
             for (crate, mode, ns) in spec["runs"]:
                 r = run_mode(pid, crate, mode, ns[tier], seed + 1000 * extra, profiles[0], os.path.join(wdir, f"search{extra}"), spec["proj"])
                 runs.append(r)
-                o_viols += [v for v in r["viols"] if v["tag"] in spec["tags"]]
+                o_viols += [v for v in r["viols"] if v["tag"] in tags_for(r)]
             if o_viols:
                 break
     # ---- verdict
